@@ -104,9 +104,9 @@ package notation
 // ---- C07: blob descriptors and what verification reports back ----
 
 //@ func getDescriptorFunc$1
-//@ props C07
+//@ props C07 C01
 //@ requires reader != nil
-//@ ensures[C07.blob-descriptor] result1 == nil ==> copyErr(reader) == nil && result.MediaType == contentMediaType && result.Digest == digestOf(hashAlgo, readAll(reader)) && result.Size == len(readAll(reader))
+//@ ensures[C07.blob-descriptor,C01.blob-descriptor] result1 == nil ==> copyErr(reader) == nil && result.MediaType == contentMediaType && result.Digest == digestOf(hashAlgo, readAll(reader)) && result.Size == len(readAll(reader))
 //@ ensures[C07.blob-metadata] result1 == nil ==> forall(k, string, has(result.Annotations, k) == has(userMetadata, k)) && forallkeys(k, userMetadata, result.Annotations[k] == userMetadata[k])
 
 //@ func SignBlob
@@ -116,7 +116,7 @@ package notation
 //@ at call (BlobSigner).SignBlob: assert[C07.sign-blob-args] arg1 == getDescFunc && arg2 == signBlobOpts.SignerSignOptions
 
 //@ func VerifyBlob
-//@ props C07 C12
+//@ props C07 C12 C01
 //@ modifies any
 //@ at call getDescriptorFunc: assert[C07.verify-blob-args] arg1 == blobReader && arg2 == verifyBlobOpts.ContentMediaType && arg3 == verifyBlobOpts.UserMetadata
 //@ at call (BlobVerifier).VerifyBlob: assert[C07.verify-blob-args] arg1 == getDescFunc && arg2 == signature && arg3 == verifyBlobOpts.BlobVerifierVerifyOptions
@@ -131,7 +131,7 @@ package notation
 //@ ensures[C07.metadata-readback] result1 == nil && decPayload(string(outcome.EnvelopeContent.Payload.Content)).TargetArtifact.Annotations == nil ==> fresh(result) && len(result) == 0
 
 //@ func getDescriptorFunc
-//@ props C07
+//@ props C07 C01
 //@ modifies nothing
 //@ ensures[C07.generator] nonnil(result)
 
